@@ -287,7 +287,8 @@ class FlowFamily(ScenarioFamily):
             plan["h2_pad"] = r.choice([0, 0, 17, 255])
             callers.append({"start": 0.0, "ops": [
                 {"op": "request", "token": tok, "url": f"{scheme}://a.test/t/{tok}", "resp": plan,
-                 "consume": r.choice(["all", {"slow": 0.01}]),
+                 "consume": r.choice(["all", {"slow": 0.01}, {"chunks": r.randint(1, 3)},
+                                      {"chunks": r.randint(1, 3)}]),
                  "timeouts": {"read": 30.0, "write": 30.0, "pool": 60.0, "connect": 5.0}}]})
         scn = {"seed": seed, "exec": self.ex, "pool": pool,
                "net": {"latency": r.choice(["zero", "fixed", "small"]),
@@ -321,6 +322,7 @@ class CreditObserver:
         self.w = world
         self.pool = pool
         self.bad = None
+        self.pending = None
 
     def observe(self, where):
         seen = set()
@@ -340,6 +342,7 @@ class CreditObserver:
                     self.w.probes["credit_check_skipped_h2_internals_missing"] += 1
                     continue
                 self.w.probes["credit_check_done"] += 1
+                self.pending = (self.pending or 0) + proc
                 if cur + proc != mx:
                     self.bad = {"current": cur, "processed": proc, "max": mx,
                                 "missing": mx - cur - proc}
@@ -350,6 +353,7 @@ class CreditObserver:
 
     def post(self, res):
         res.info["credit"] = self.bad
+        res.info["credit_pending"] = self.pending
 
 
 class BigDownloadFamily(ScenarioFamily):
@@ -444,6 +448,23 @@ def flow_oracle(res, scn):
     if bad and not w.violations and not res.error and not w.stats_faulty and \
             all(o.get("complete") for o in res.outcomes.values()):
         w.violate("C13", "credit-not-returned-for-consumed-data", bad)
+        return
+    # also when responses were read only in part: the credit the client has returned
+    # (announced to the server, or processed and waiting to be announced) covers at least
+    # every body byte that was handed to a caller
+    pend = res.info.get("credit_pending")
+    if pend is not None and not w.violations and not res.error and not w.stats_faulty \
+            and len(w.wires) == 1:
+        peer = getattr(w.wires[0].peer, "inner", None)
+        conn = getattr(peer, "c", None)
+        if conn is not None and hasattr(peer, "fc_sent"):
+            announced = conn.outbound_flow_control_window - 65535 + peer.fc_sent - 2 ** 24
+            delivered = sum(len(o.get("body") or b"") for o in res.outcomes.values()
+                            if oracles.is_h2(o))
+            if announced + pend < delivered:
+                w.violate("C13", "credit-not-returned-for-consumed-data:partial-read",
+                          {"announced": announced, "pending": pend, "delivered": delivered,
+                           "sent": peer.fc_sent})
 
 
 register("C12", {
